@@ -2,12 +2,14 @@ CLAIMS["C07"] = dict(
     engine="seq",
     technique="explicit-state exploration of value multisets, interval splits and reader schedules on the real aggregations and the real MeterProvider pipeline "
               "against a by-definition reference histogram (bounded multiset size)",
-    text="Seam 1 (c07_hist_agg): real LongHistogramAggregation / DoubleHistogramAggregation for 10 boundary lists ([], [0], [1], [0,1], [0.5,1.5], [0,5,10], the default 15, "
-         "[2^52], [1e300], [DBL_MIN]) x {record_min_max on, off, no configuration}: every multiset of <= 3 (quick) / <= 5 (thorough) values over the per-list alphabet "
-         "(0, denormal-min, DBL_MIN, 1, 1e300, every boundary and its two neighbouring doubles; for integers 0, 1, 2^53, boundary and boundary+-1), every assignment of its "
+    text="Seam 1 (c07_hist_agg): real LongHistogramAggregation / DoubleHistogramAggregation for 13 boundary lists ([], [0], [1], [0,1], [0.5,1.5], [0,5,10], the default 15, "
+         "[2^52], [1e300], [DBL_MIN], the duplicate boundary [1,1], and for int64 only [2^53] and [2^62]) x {record_min_max on, off, no configuration}: every multiset of <= 3 (quick) / <= 5 (thorough) values over the per-list alphabet "
+         "(0, denormal-min, DBL_MIN, 1, 1e300, every boundary and its two neighbouring doubles; for integers 0, 1, 2^53, boundary and boundary+-1, including 2^53+1 and 2^62+-1 which are not exact doubles; "
+         "integer multisets whose exact sum exceeds INT64_MAX are not formed), every assignment of its "
          "elements to three parts; the point of each part, of the single histogram of all values, and of the merge of the parts in three association orders must have "
-         "bucket i = number of boundaries strictly below v, sum of buckets = count, exact sum on exactly summable multisets (rounding tolerance otherwise), exact min/max; "
-         "merged point == single-histogram point. Seam 2 (c07_hist_meter): the same configurations through MeterProvider + View + UInt64/Double histogram instruments with "
+         "bucket i = number of boundaries strictly below v (for integers decided on exact integer arithmetic), sum of buckets = count, exact sum on exactly summable multisets (rounding tolerance otherwise), exact min/max; "
+         "merged point == single-histogram point. Seam 2 (c07_hist_meter): the same configurations through MeterProvider + View (View(kHistogram, config), View(kDefault, config), and for the default list no view / "
+         "View(kHistogram, nullptr); the two added forms with multisets of <= 2 (quick) / <= 4 (thorough) values) + UInt64/Double histogram instruments with "
          "1-2 harness pull readers (delta, cumulative): every multiset of <= 3 (quick) / <= 4 (thorough) values of a reduced alphabet split in every way over three collection "
          "cycles, every schedule of which reader collects after which cycle; each collected point against the reference histogram of the values that reader is due.",
     note=SEQ_NOTE)
